@@ -47,6 +47,9 @@ TP_MUTATORS = ("consume_token", "check_stop", "rollback", "reset", "compute_mask
                "validate_tokens_raw", "validate_token", "is_accepting", "process_prompt", "start_without_prompt", "apply_token", "test_trigger_lexer_error")
 
 
+PS_ = "llguidance::earley::parser::ParserState"
+
+
 def run(ctx):
     P = ctx.prog
     wi = ctx.body(M + "::with_inner")
@@ -262,6 +265,36 @@ def run(ctx):
         still = L.dominated_by_cut(ct, push, g) if g else push
         ctx.check(bool(g) and not still, "C18-R4", "consume_token:eos-arm-only-for-eos", "the EOS arm is entered only for EOS tokens",
                   "consume_token's EOS shortcut applies to non-EOS tokens", site=ct.where(push[0]))
+
+    # ------------------------------------------------------------------ R7 validate_tokens agrees with is_accepting on EOS
+    # TokenParser::is_accepting is `!has_ff_bytes() && parser.is_accepting()`: with forced bytes pending the sequence may not
+    # end.  The speculative validation walk must say the same: in its EOS arm the "EOS accepted" result (index + 1) is
+    # produced only when every pending forced byte has been supplied (`applied_idx == bytes.len()`) AND the parser accepts.
+    vt = ctx.body(PS_ + "::validate_tokens::{closure#0}")
+    acc = L.guard_edges(vt, L.is_call_to(PS_ + "::is_accepting_inner"), True)
+    def no_pending(e):
+        if not (e[0] == "bin" and e[1] == "Eq"):
+            return False
+        t = F.fmt_expr(e)
+        return "len(" in t and ".bytes" in t
+    nop = L.guard_edges(vt, no_pending, True)
+    # the EOS arm: reached on the true edge of eos_tokens().contains(tok)
+    eos_t = L.guard_edges(vt, lambda e: e[0] == "call" and e[1].endswith("::contains") and "eos_tokens" in F.fmt_expr(e), True)
+    arm = set()
+    for (_, t_) in eos_t:
+        arm |= vt.reachable(t_, cut_blocks=vt.call_blocks(lambda d: d.endswith("::try_push_byte")))
+    plus1 = []
+    for bi, si, st in vt.statements():
+        r = st.get("r", {})
+        if bi in arm and st["s"] == "assign" and r.get("rv") == "bin" and r["op"].startswith("Add") and isinstance(r.get("b"), dict) and F.op_const_int(r["b"]) == 1:
+            plus1.append(bi)
+    if ctx.floor("C18-R7", "`index + 1` result in the EOS arm of validate_tokens", len(plus1), 1):
+        ctx.check(bool(acc) and not L.dominated_by_cut(vt, plus1, acc), "C18-R7", "validate:eos-only-if-accepting",
+                  "EOS validates only when the parser is accepting", "validate_tokens accepts EOS in a non-accepting state", site=vt.where(plus1[0]))
+        ctx.check(bool(nop) and not L.dominated_by_cut(vt, plus1, nop), "C18-R7", "validate:eos-only-without-pending-forced-bytes",
+                  "EOS validates only when all forced bytes have been supplied (applied_idx == bytes.len())",
+                  "validate_tokens accepts EOS while forced bytes are still pending: validate_tokens([EOS]) == 1 although is_accepting() is false "
+                  "and the mask excludes EOS; try_consume_tokens then drives the matcher into the error state", site=vt.where(plus1[0]))
 
     # ------------------------------------------------------------------ R6 one EOS set for every decision
     # a vocabulary can have several end-of-sequence tokens; mask, commit, stop decision and rollback must agree on the set
